@@ -126,7 +126,11 @@ def _one(raw):
             q = tuple(q)
             name = '.'.join(q)
             exp = spec_path(root, res)
-            got = util_import.modname_to_modpath(name, sys_path=[root])
+            # the search path entry as written by users: plain, with a trailing separator, with a '.' component
+            sp = [root, root + os.sep, os.path.join(os.path.dirname(root), '.', os.path.basename(root)), root + os.sep + os.sep][(rot + len(q)) % 4]
+            got = util_import.modname_to_modpath(name, sys_path=[sp])
+            if got is not None:
+                got = os.path.normpath(got)
             if got != exp:
                 bad.append(('modname_to_modpath[%s]' % name, exp and os.path.relpath(exp, root), got and os.path.relpath(got, root)))
             oracle = finder_resolve(root, q)
